@@ -348,6 +348,43 @@ func walkBytes(v reflect.Value, fn func(reflect.Value)) {
 	}
 }
 
+// rehouse moves every octet string reachable from v into one array, each followed by
+// eight guard octets, so that every string has spare capacity that runs over its
+// guard and the strings behind it — what a message looks like whose fields are windows
+// of a caller's buffers. The returned function names the first guard that changed.
+func rehouse(v reflect.Value) func() string {
+	var fields []reflect.Value
+	total := 0
+	walkBytes(v, func(b reflect.Value) {
+		if b.CanSet() && !b.IsNil() {
+			fields = append(fields, b)
+			total += b.Len() + 8
+		}
+	})
+	arena := make([]byte, total)
+	for i := range arena {
+		arena[i] = 0xa5
+	}
+	var guards []int
+	off := 0
+	for _, f := range fields {
+		n := copy(arena[off:], f.Bytes())
+		f.SetBytes(arena[off : off+n])
+		guards = append(guards, off+n)
+		off += n + 8
+	}
+	return func() string {
+		for gi, g := range guards {
+			for j := g; j < g+8; j++ {
+				if arena[j] != 0xa5 {
+					return fmt.Sprintf("octet %d behind the %d-octet string number %d of the message (its spare capacity, the caller's memory) changed from a5 to %02x", j-g, fields[gi].Len(), gi+1, arena[j])
+				}
+			}
+		}
+		return ""
+	}
+}
+
 // deepCopy clones a value built of structs, pointers, arrays and byte slices.
 func deepCopy(v reflect.Value) reflect.Value {
 	switch v.Kind() {
